@@ -3,7 +3,8 @@ From PV Require Import Common.Util Interp.Flow Interp.FlowCheck Proofs.InterpFlo
 
 (* C02: for every skeleton built from t(n), if, while/for (+else), break, continue, return, raise (class,
    raise-from, bare re-raise), try/except/else/finally (handler lists, named handlers), with (any number of
-   managers), assert, pass and nested function calls, in any combination and depth, that Python's compiler
+   managers, also managers written in the script), assert (with message), pass and nested function calls, including
+   the async forms (async with / async for / async def), in any combination and depth, that Python's compiler
    accepts ([supported]: break/continue inside a loop of the same function); for every host oracle
    ([h]: what every condition, iterator, __enter__, __exit__ answers — with arbitrary state — and the subclass
    relation used by `except`); and for every fuel: pyscript's marker-passing evaluator with all deviation
@@ -55,6 +56,11 @@ Print Assumptions C02_refuted_D200.
 Theorem C02_refuted_D201 : differs only_d201 [] w_d201_mgrs w_d201_body.
 Proof. exact refuted_D201. Qed.
 Print Assumptions C02_refuted_D201.
+
+(* D202: `async for` over a proper asynchronous iterator *)
+Theorem C02_refuted_D202 : differs only_d202 w_d202_scripts [] w_d202_body.
+Proof. exact refuted_D202. Qed.
+Print Assumptions C02_refuted_D202.
 
 (* the correspondence check and the theorem fit together: a case on which the conformant Model reproduces both
    the real AstEval's and CPython's observation satisfies the Spec (so, once every finding is repaired, a Spec
